@@ -54,6 +54,8 @@ func propsOf(o object.PanObject) []string {
 
 var lits = []string{"0", "1", "2", "3", "-1", "2.5", `"ab"`, `"c"`, `"日本"`, "'k", "nil", "true", "[1, 2, 3]", "[[1, 2], [3, 4]]", `["a", "b"]`, "[]", "{a: 1, b: 2}", "{}", "{_p: 1, q: [1]}",
 	"%{1: 2, 'a: 3}", "%{[1]: 2}", "%{}", "(0:2)", "(1:3)", "(-2:)", "(:100)", "(1:-1)", "(-1:-4:-1)", "('a:'d)", "{|x| x}", "{|x, y| x}", "{|x| x == 2}", "{|x| [x, x]}", "{|a, x| [*a, x]}",
+	"{|d| {|x, k: d| [x, k]}}", "{|d| {|k: [d]| k}}", "[1, 2, 3]@{|i| {|k: i * 10| k}}", "{|d| <{|i, k: d| yield [i, k]}>}", "{|d| {m: m{|k: d| k}}}",
+	"%{[1]: 'a, [2]: 'b, {c: 1}: 'c}", "%{[3]: 1, [1]: 2, [2]: 3}", "%{[1]: 'a, [2]: 'b, {c: 1}: 'c, 5: 5}", "%{{a: 1}: 1, {b: 2}: 2, [1]: 3}",
 	"Int", "Str", "Arr", "Obj", "Map", "1.try", "<{|i| yield i if i < 3; recur(i + 1)}>.new(0)"}
 var growable = []string{"[1, 2, 3]", "[[1], [2]]", `["a", "b", "c"]`, "[1, 2, 3, 4, 5]", `"abc"`, "{a: 1, b: 2}", "%{1: 2, 3: 4}", "{a: 1}", "{_p: 1, b: 2}"}
 var infixOps = []string{"+", "-", "*", "/", "==", "!=", "<", "<=>", "&&", "||", "<<", "/&", "//", "%", "**", "==="}
@@ -203,8 +205,10 @@ func cyclic(o object.PanObject) bool {
 	return visit(o)
 }
 
-func isObjVal(o object.PanObject) bool { _, ok := o.(*object.PanObj); return ok }
-func isArrVal(o object.PanObject) bool { _, ok := o.(*object.PanArr); return ok }
+func isObjVal(o object.PanObject) bool  { _, ok := o.(*object.PanObj); return ok }
+func isArrVal(o object.PanObject) bool  { _, ok := o.(*object.PanArr); return ok }
+func isMapVal(o object.PanObject) bool  { _, ok := o.(*object.PanMap); return ok }
+func isFuncVal(o object.PanObject) bool { _, ok := o.(*object.PanFunc); return ok }
 func isIterVal(o object.PanObject) bool {
 	switch o.(type) {
 	case *object.PanArr, *object.PanObj, *object.PanMap, *object.PanStr, *object.PanRange:
@@ -253,7 +257,7 @@ func (g *histGen) step(i int) {
 	name := fmt.Sprintf("v%d", i)
 	var rhs string
 	sibling := false
-	switch k := g.intn(16, "op"); {
+	switch k := g.intn(18, "op"); {
 	case k < 2 || len(g.vars) == 0:
 		rhs = rapid.SampledFrom(append(append([]string{}, lits...), growable...)).Draw(g.t, "lit")
 	case k < 4:
@@ -296,6 +300,17 @@ func (g *histGen) step(i int) {
 				g.defined[f[0]] = true
 				g.emit(f[0], f[1])
 			}
+		}
+		sibling = true
+	case k < 15 && k >= 13:
+		// operands of one kind: equality and membership between stored containers, calls of stored functions
+		kind := rapid.SampledFrom([]func(object.PanObject) bool{isMapVal, isMapVal, isArrVal, isObjVal, isFuncVal, isFuncVal}).Draw(g.t, "kind")
+		a, b := g.pickKind("a", kind), g.pickKind("b", kind)
+		rhs = rapid.SampledFrom([]string{"%[1]s == %[2]s", "%[2]s == %[1]s", "%[1]s == %[1]s", "[%[1]s] == [%[2]s]", "[%[1]s, 1].has?(%[2]s)", "%[1]s != %[2]s", "{k: %[1]s} == {k: %[2]s}", "%%{1: %[1]s} == %%{1: %[2]s}",
+			"%[1]s(%[3]s)", "%[1]s(%[3]s, k: %[3]s)", "%[1]s(%[3]s).kwargs", "%[1]s.kwargs", "%[1]s(%[3]s)(1)", "[%[1]s(1), %[1]s(2)]", "%[1]s(1).new(0).next", "%[1]s(%[3]s).m"}).Draw(g.t, "form")
+		rhs = fmt.Sprintf(rhs, a, b, g.pick("arg"))
+		if k := strings.Index(rhs, "%!("); k >= 0 {
+			rhs = rhs[:k]
 		}
 		sibling = true
 	case k < 13:
